@@ -251,7 +251,7 @@ theorem call_sites_found_partial (tbl : Table) (e e' : Expr) (h : finder tbl e =
 
 /-- non-vacuity: a nested and repeated use satisfies the hypothesis and is rewritten -/
 example :
-    let s : FSpec := ⟨"f".toList, [], ["x".toList], ["auto result = x;".toList], "result".toList, "double".toList, false, none⟩
+    let s : FSpec := ⟨"f".toList, [], ["x".toList], ["auto result = x;".toList], "result".toList, "double".toList, false, none, none⟩
     let tbl : Table := [("f".toList, .spec s)]
     let e : Expr := .call (.name "f".toList) [.call (.name "f".toList) [.call (.attr (.name "j".toList) "pt".toList) []]]
     ReceiverPlain tbl e = true ∧ isOk (finder tbl e) = true := by decide
@@ -259,7 +259,7 @@ example :
 def jetTable : Table :=
   [("getAttributeFloat".toList, .spec ⟨"getAttributeFloat".toList, ["vector".toList], ["moment_name".toList],
       ["auto result = obj_j->getAttribute<float>(moment_name);".toList], "result".toList, "float".toList, false,
-      some "obj_j".toList⟩)]
+      some "obj_j".toList, some "xAOD::Jet_v1".toList⟩)]
 
 /-- The receiver restriction is real: `First(Jets).getAttributeFloat("emf")` is left as an
 ordinary method call (and then emitted as a call of a method the jet class does not have). -/
@@ -398,7 +398,7 @@ theorem fresh_counterexample : uniqueName "f1".toList 2 = uniqueName "f".toList 
 argument text mentions the outer parameter names is emitted and satisfies the specification -/
 example :
     let s : FSpec := ⟨"myf".toList, ["a.h".toList], ["pt".toList, "eta".toList], ["auto result = pt + eta;".toList],
-      "result".toList, "double".toList, false, none⟩
+      "result".toList, "double".toList, false, none, none⟩
     let cols : List Expr := [.call (.name "myf".toList)
         [.opaque "i_obj1->eta()".toList, .call (.name "myf".toList) [.opaque "i_obj1->pt()".toList, .opaque "1.0".toList]]]
     (match runQuery asciiWord [] [s] [] cols 2 with
